@@ -232,9 +232,11 @@ def xnet_expr(o):
         if k == 'in':
             terms.append('XIn')
         elif k == 'pad1d':
-            cons = [j for j, n2 in enumerate(nodes) if n2['k'] == 'conv1d' and n2['src'] == i]
-            newpad = ('(hp_pad %s)' % hp(o['layers'][ga.name(cons[0])])) if cons else coq(Nat(nd['left']))
-            terms.append('XPad %s %s %s' % (coq(Nat(nd['src'])), coq(Nat(nd['left'])), newpad))
+            # the causal pad belongs to its (unique) Conv1d consumer: the model's XConv1 pads by (K-1)*d itself
+            cons = [n2 for n2 in nodes if 'src' in n2 and (n2['src'] == i or (isinstance(n2['src'], list) and i in n2['src']))]
+            if len(cons) != 1 or cons[0]['k'] != 'conv1d' or nd['left'] != (cons[0]['ks'] - 1) * cons[0]['dil']:
+                return None
+            terms.append('XId %s' % coq(Nat(nd['src'])))
         elif k == 'conv1d':
             terms.append('XConv1 %s %s %s %s %s %s %s %s %s %s (time_mask_of %s %s %s %s) (hp_k %s) (hp_dil %s)' % (
                 coq(Nat(nd['src'])), coq(L['fold']), coq(L['dw']), coq(X['w'][nm]), bias(), coq(Nat(nd['cin'])), coq(Nat(nd['ks'])), coq(Nat(nd['dil'])), coq(Nat(nd['stride'])),
@@ -341,6 +343,8 @@ def run(ctx):
         ctx.case(('n', o['arch'], json.dumps({k: (L['mout'], L.get('tm')) for k, L in o['layers'].items()}), job['fold']), nontrivial=pruned,
                  kind='net:%s:%s:%s' % (job['kind'], 'fold' if job['fold'] else 'nofold', 'int' if job['integer'] else 'real'),
                  sample={'arch': o['arch'], 'fold_bn': job['fold'], 'layers': {k: {'mout': L['mout'], 'tm': L.get('tm'), 'exported': L.get('exported')} for k, L in list(o['layers'].items())[:3]}} if job['seed'] % 23 == 0 else None)
+        for t in o.get('topo', []):
+            ctx.dist['topology:' + t] += 1
         for prod in (o.get('spec') or {}).get('productions', []):
             ctx.dist['prod:' + prod] += 1
         seen = set()
